@@ -31,11 +31,13 @@ RECURSIVE Symbols(_)          \* 5 bits per symbol, the last group is padded wit
 Symbols(bits) == IF bits = <<>> THEN <<>>
                  ELSE LET g == SubSeq(bits, 1, IF Len(bits) < 5 THEN Len(bits) ELSE 5)
                       IN <<Alphabet[Num(g) + 1]>> \o Symbols(SubSeq(bits, Len(g) + 1, Len(bits)))
-(* dash after every 6 symbols except at the end *)
-Grouped(sym) == [k \in 1..(Len(sym) + (Len(sym) - 1) \div 6) |-> IF k % 7 = 0 THEN "-" ELSE sym[k - (k \div 7)]]
+(* dash after every g symbols (padding symbols included) except at the end; g = 0: no grouping *)
+GroupedBy(sym, g) == IF g = 0 THEN sym ELSE [k \in 1..(Len(sym) + (Len(sym) - 1) \div g) |-> IF k % (g + 1) = 0 THEN "-" ELSE sym[k - (k \div (g + 1))]]
+Grouped(sym) == GroupedBy(sym, 6)
 (* the symbols are padded with "=" to a whole number of 40-bit blocks (8 symbols) before grouping *)
 PadTo8(sym) == sym \o [k \in 1..((8 - (Len(sym) % 8)) % 8) |-> "="]
-Encode(bytes) == Grouped(PadTo8(Symbols(ToBits(bytes, 1))))
+EncodeBy(bytes, g) == GroupedBy(PadTo8(Symbols(ToBits(bytes, 1))), g)
+Encode(bytes) == EncodeBy(bytes, 6)
 
 FiveBits(v) == [k \in 1..5 |-> (v \div (2 ^ (5 - k))) % 2]
 RECURSIVE SymBits(_, _)
